@@ -439,11 +439,15 @@ namespace rpc
 
         void process_field(buffer& x)
         {
-            if (x.size() == 0)
+            if (x.size() == 0) {
+                x._ptr = nullptr;   // don't keep the sender's address
                 return;
+            }
             x._ptr = _iov->extract_front_continuous(x.size());
-            if (!x._ptr)
+            if (!x._ptr) {
                 failed = true;
+                x._len = 0;         // nothing was extracted: leave an empty buffer behind
+            }
         }
 
         void process_field(iovec_array& x)
